@@ -275,7 +275,8 @@ class Thresholds(Harness):
             if f or w:
                 added[name] = (list(f), list(w))
         hk = kex.host_keys()
-        return {'added': added, 'recorded': {k: [v['hostkey_size'], v['ca_key_type'], v['ca_key_size']] for k, v in hk.items()}, 'connects': sock.connects,
+        master_changed = M.ssh2_kexdb.SSH2_KexDB.MASTER_DB['key'] != before
+        return {'master_changed': master_changed, 'added': added, 'recorded': {k: [v['hostkey_size'], v['ca_key_type'], v['ca_key_size']] for k, v in hk.items()}, 'connects': sock.connects,
                 'closes': sock.closes, 'log': sock.log, 'probed': sock.kexinits}
 
     def expected_notes(self, kt, size, ca_size):
@@ -351,6 +352,8 @@ class Thresholds(Harness):
         others = [t for t in added if not any(t == kt or (kt in RSA and t in RSA) for kt in probed_types)]
         yield 'size-notes==thresholds', ok
         yield 'no-other-row-touched', others == []
+        # the notes go into this scan's copy of the table: the master table (what the next scan starts from) stays as it was
+        yield 'master-table-untouched', not obs['master_changed']
         rec = obs['recorded']
         okr = all((t in rec and bool(rec[t][0] == size)) for kt in probed_types for t in (RSA if kt in RSA and '-cert-' not in kt else [kt]))
         yield 'recorded-sizes', okr
